@@ -23,6 +23,10 @@ class Item:
     def big(self, k):
         return self.a > k
 
+    def scaled(self, k=1, *, plus=0):
+        """a method with a default and a keyword-only parameter; the call without arguments differs from the others"""
+        return self.a * k + plus
+
     def __repr__(self):
         return f"{type(self).__name__}#{getattr(self, '_label', '?')}(a={self.a},b={self.b},name={self.name!r})"
 
